@@ -33,6 +33,7 @@ import (
 var vC10Switches = 2
 var vC10Only1 = 0 // debugging: fix the first / second environment action
 var vC10Only2 = -1
+var vC10DoneCap = 100 // capacity of the node's completion channel (NewPFCPNode: 100)
 
 // ---- thread-safe fakes ------------------------------------------------------
 
@@ -374,7 +375,7 @@ func vC10Setup(n int, hb bool, jitter bool) *vC10World {
 	vInstallPacketStub()
 	ctx, cancel := context.WithCancel(context.Background())
 	w.node = &PFCPNode{ctx: ctx, cancel: cancel, PacketConn: w.pk, done: make(chan struct{}),
-		pConnDone: make(chan string, 100), upf: w.u, metrics: w.m}
+		pConnDone: make(chan string, vC10DoneCap), upf: w.u, metrics: w.m}
 	for k := 0; k < n; k++ {
 		conn := vNewTConn(9000 + k)
 		pc := &PFCPConn{
@@ -846,6 +847,56 @@ func R_C10_stress_newpeer() {
 					msg = "hang: " + msg
 				}
 				vStressFail(fmt.Sprintf("round %d %s: %s", round, vC10FirstNames[kind], msg))
+			}
+		}
+	}
+}
+
+// H_C10_stopmany: "any number of live associations" scaled down - the node's
+// completion channel holds ONE entry (the real one holds 100) and two
+// associations are alive when the agent is stopped, optionally while one of
+// them is being released: more completions than the channel can buffer must
+// not wedge the shutdown.
+func H_C10_stopmany() {
+	vConcreteClock(1000)
+	vC10DoneCap = 1
+	t2 := []int{vC10None, vC10Release, vC10Timeout}[vChoose("also", 3)]
+	vTag("stop+" + vC10Names[t2] + "(completion-channel-of-1)")
+	w := vC10Setup(2, false, false)
+	vSettle()
+	vPreemptAtChans(vC10Switches)
+	w.fire(t2)
+	w.fire(vC10Stop)
+	vSettle()
+	var res []vC10Res
+	w.checkStopped(&res)
+	for _, r := range res {
+		vAssert(r.label, r.ok)
+	}
+	vJoin()
+	vCover("stopmany")
+}
+
+// R_C10_stress_stopmany: native counterpart.
+func R_C10_stress_stopmany() {
+	vC10DoneCap = 1
+	deadline := time.Now().Add(40 * time.Second)
+	for round := 0; round < 3000 && time.Now().Before(deadline); round++ {
+		for _, t2 := range []int{vC10None, vC10Release, vC10Timeout} {
+			w := vC10Setup(2, false, true)
+			time.Sleep(time.Duration(rand.Intn(300)) * time.Microsecond)
+			w.fire(t2)
+			w.fire(vC10Stop)
+			if !vC10Wait(w.nodeDone, 2*time.Second) {
+				vStressFail(fmt.Sprintf("round %d: hang: stop does not complete with two live associations and a completion channel of one", round))
+			}
+			time.Sleep(time.Duration(200+rand.Intn(400)) * time.Microsecond)
+			var res []vC10Res
+			w.checkStopped(&res)
+			for _, r := range res {
+				if !r.ok {
+					vStressFail(fmt.Sprintf("round %d: %s", round, r.label))
+				}
 			}
 		}
 	}
